@@ -61,7 +61,10 @@ fn main() {
             let threads: usize = arg(&args, "--threads")
                 .and_then(|s| s.parse().ok())
                 .unwrap_or(2);
-            let n = e2e::run_file(&scn, &out, threads);
+            let par: usize = arg(&args, "--par")
+                .and_then(|s| s.parse().ok())
+                .unwrap_or(1);
+            let n = e2e::run_file(&scn, &out, threads, par);
             println!("events={n}");
         }
         other => {
